@@ -88,89 +88,257 @@ def collocation(chk, imod):
     chk.pat("H1-collocation-arguments", calls[0] if calls else init, "collocation_matrix(basis.nbasis, knots, degree, greville, periodic, cubic_uniform)",
             ok, "number of basis functions, knots, degree, interpolation points, periodicity and family all come from the one basis", bad,
             file=U.INTERP, func=init_q)
-    # ---- columns of row i
-    span, degree, nb, s = sp.symbols("span degree nb s", integer=True)
-    tab = {"span": span, "degree": degree, "nb": nb}
+    # ---- columns of row i and the way the values are stored: read per kind of space (periodic / clamped)
+    collocation_fill(chk, cm)
 
-    def js_defs(block):
-        out = []
-        for st in block:
-            if isinstance(st, ast.FunctionDef) and len(st.args.args) == 1:
-                rets = [r.value for r in ast.walk(st) if isinstance(r, ast.Return)]
-                if len(rets) == 1:
-                    out.append((st.name, st.args.args[0].arg, rets[0]))
-            elif isinstance(st, ast.Assign) and isinstance(st.value, ast.Lambda) and len(st.value.args.args) == 1 and isinstance(st.targets[0], ast.Name):
-                out.append((st.targets[0].id, st.value.args.args[0].arg, st.value.body))
-        return out
 
-    def columns(e, par):
-        """(first column, number of columns, wrapped modulo?) of the index expression of one row"""
-        t = dict(tab)
-        t[par] = span
-        if isinstance(e, ast.ListComp) and len(e.generators) == 1 and isinstance(e.generators[0].target, ast.Name) and \
-                isinstance(e.generators[0].iter, ast.Call) and src(e.generators[0].iter.func) == "range" and len(e.generators[0].iter.args) == 1 \
-                and not e.generators[0].ifs:
-            v = e.generators[0].target.id
-            cnt = _int_attr(e.generators[0].iter.args[0], t)
+class _Cols:
+    """index set {first + k (mod `mod`) : 0 <= k < count} along the columns of the matrix"""
+
+    def __init__(self, first, count, mod=None):
+        self.first, self.count, self.mod = first, count, mod
+
+    def __repr__(self):
+        return f"[{self.first}, {self.first} + {self.count})" + (f" mod {self.mod}" if self.mod is not None else "")
+
+
+def collocation_fill(chk, cm):
+    """abstract reading of collocation_matrix on a periodic and on a clamped space: names are bound to index sets (ranges, slices, index
+    arrays, closures over the span, shifted / taken modulo) and every store into the matrix is recorded with the index set of its columns and
+    its kind (unbuffered accumulation, assignment, buffered in-place addition).  Nothing is executed."""
+    span, degree, nb, s, nx = sp.symbols("span degree nb s nx", integer=True)
+    formals = [a.arg for a in cm.args.args]
+    per_name = "periodic" if "periodic" in formals else None
+    fq = f"{C1}.collocation_matrix"
+    # names that hold the span of the row (results of the span search)
+    span_names = set()
+    for n in ast.walk(cm):
+        if isinstance(n, ast.Assign) and isinstance(n.value, ast.Call) and src(n.value.func) in ("nu_find_span", "cu_find_span"):
+            t = n.targets[0]
+            t = t.elts[0] if isinstance(t, ast.Tuple) and src(n.value.func) == "cu_find_span" and t.elts else t
+            if isinstance(t, ast.Name):
+                span_names.add(t.id)
+            elif isinstance(t, ast.Subscript) and isinstance(t.value, ast.Name):
+                span_names.add(t.value.id)
+    mat_names = {t.id for n in ast.walk(cm) if isinstance(n, ast.Assign) and isinstance(n.value, ast.Call)
+                 and src(n.value.func) in ("np.zeros", "np.empty") and isinstance(n.value.args[0] if n.value.args else None, ast.Tuple)
+                 and len(n.value.args[0].elts) == 2 and src(n.value.args[0].elts[1]) in ("nb", formals[0] if formals else "nb")
+                 for t in n.targets if isinstance(t, ast.Name)}
+
+    class Unknown(Exception):
+        pass
+
+    def ev(e, env, case):
+        """sympy scalar or _Cols; raises Unknown"""
+        if isinstance(e, ast.Constant) and isinstance(e.value, int) and not isinstance(e.value, bool):
+            return sp.Integer(e.value)
+        if isinstance(e, ast.Name):
+            if e.id in env:
+                v = env[e.id]
+                if v is None or isinstance(v, tuple):
+                    raise Unknown(e.id)
+                return v
+            if e.id in span_names:
+                return span
+            if e.id in ("degree", "nb", "nx"):
+                return {"degree": degree, "nb": nb, "nx": nx}[e.id]
+            raise Unknown(e.id)
+        if isinstance(e, ast.UnaryOp) and isinstance(e.op, ast.USub):
+            v = ev(e.operand, env, case)
+            if isinstance(v, _Cols):
+                raise Unknown(src(e))
+            return -v
+        if isinstance(e, ast.IfExp) and per_name and src(_polarity(e.test)[0]) == per_name:
+            take_body = case != _polarity(e.test)[1]
+            return ev(e.body if take_body else e.orelse, env, case)
+        if isinstance(e, ast.Subscript):
+            base = e.value
+            items = e.slice.elts if isinstance(e.slice, ast.Tuple) else [e.slice]
+            reshaping = all((isinstance(x, ast.Slice) and x.lower is None and x.upper is None and x.step is None) or
+                            (isinstance(x, ast.Constant) and x.value is None) or src(x) == "np.newaxis" for x in items)
+            if isinstance(base, ast.Name) and base.id in span_names:
+                return span                   # the span of the row (of every row, broadcast)
+            if reshaping:
+                return ev(base, env, case)
+            raise Unknown(src(e))
+        if isinstance(e, ast.BinOp) and isinstance(e.op, (ast.Add, ast.Sub)):
+            a, b = ev(e.left, env, case), ev(e.right, env, case)
+            if isinstance(a, _Cols) and isinstance(b, _Cols):
+                raise Unknown(src(e))
+            if isinstance(a, _Cols) or isinstance(b, _Cols):
+                c, k = (a, b) if isinstance(a, _Cols) else (b, a)
+                if c.mod is not None or (isinstance(e.op, ast.Sub) and c is b):
+                    raise Unknown(src(e))
+                return _Cols(c.first + k if isinstance(e.op, ast.Add) else c.first - k, c.count, None)
+            return a + b if isinstance(e.op, ast.Add) else a - b
+        if isinstance(e, ast.BinOp) and isinstance(e.op, ast.Mult):
+            a, b = ev(e.left, env, case), ev(e.right, env, case)
+            if isinstance(a, _Cols) or isinstance(b, _Cols):
+                raise Unknown(src(e))
+            return a * b
+        if isinstance(e, ast.BinOp) and isinstance(e.op, ast.Mod):
+            a, m = ev(e.left, env, case), ev(e.right, env, case)
+            if isinstance(m, _Cols):
+                raise Unknown(src(e))
+            if isinstance(a, _Cols):
+                if a.mod is not None:
+                    raise Unknown(src(e))
+                return _Cols(a.first, a.count, m)
+            raise Unknown(src(e))
+        if isinstance(e, ast.Call):
+            f = src(e.func)
+            if f in ("np.arange", "range", "slice") and not e.keywords and 1 <= len(e.args) <= 2:
+                vals = [ev(a, env, case) for a in e.args]
+                if any(isinstance(v, _Cols) for v in vals):
+                    raise Unknown(src(e))
+                lo, hi = (sp.Integer(0), vals[0]) if len(vals) == 1 else vals
+                return _Cols(lo, hi - lo, None)
+            if f in ("np.mod", "np.remainder") and len(e.args) == 2:
+                a, m = ev(e.args[0], env, case), ev(e.args[1], env, case)
+                if isinstance(a, _Cols) and a.mod is None and not isinstance(m, _Cols):
+                    return _Cols(a.first, a.count, m)
+                raise Unknown(src(e))
+            if f in ("np.array", "np.asarray", "list", "np.atleast_1d") and len(e.args) >= 1:
+                return ev(e.args[0], env, case)
+            if isinstance(e.func, ast.Name) and isinstance(env.get(e.func.id), tuple) and len(e.args) == 1 and not e.keywords:
+                _k, par, body, cenv, pre = env[e.func.id]
+                inner = dict(cenv)
+                inner[par] = ev(e.args[0], env, case)
+                for x in pre:                       # locals of the closure, in order
+                    try:
+                        inner[x.targets[0].id] = ev(x.value, inner, case)
+                    except Unknown:
+                        inner[x.targets[0].id] = None
+                return ev(body, inner, case)
+            raise Unknown(src(e))
+        if isinstance(e, ast.ListComp) and len(e.generators) == 1 and isinstance(e.generators[0].target, ast.Name) and not e.generators[0].ifs:
+            g = e.generators[0]
+            rng = ev(g.iter, env, case)
+            if not isinstance(rng, _Cols) or rng.mod is not None:
+                raise Unknown(src(e))
+            inner = dict(env)
+            inner[g.target.id] = s
             elt, mod = e.elt, None
             if isinstance(elt, ast.BinOp) and isinstance(elt.op, ast.Mod):
-                mod = _int_attr(elt.right, t)
+                mod = ev(elt.right, inner, case)
                 elt = elt.left
-            val = _int_attr(elt, {**t, v: s})
-            if cnt is None or val is None or val.coeff(s) != 1:
-                return None
-            return val.subs(s, 0), cnt, mod
-        if isinstance(e, ast.Call) and src(e.func) in ("slice", "range", "np.arange") and len(e.args) == 2:
-            lo, hi = _int_attr(e.args[0], t), _int_attr(e.args[1], t)
-            if lo is None or hi is None:
-                return None
-            return lo, hi - lo, None
-        if isinstance(e, ast.BinOp) and isinstance(e.op, ast.Mod):
-            inner = columns(e.left, par)
-            m = _int_attr(e.right, t)
-            if inner is None or m is None:
-                return None
-            return inner[0], inner[1], m
-        return None
+            val = ev(elt, inner, case)
+            if isinstance(val, _Cols) or isinstance(mod, _Cols) or sp.expand(val).coeff(s) != 1:
+                raise Unknown(src(e))
+            return _Cols(sp.expand(val).subs(s, rng.first), rng.count, mod)
+        raise Unknown(src(e))
 
-    okj, badj = False, None
-    pifs = [n for n in ast.walk(cm) if isinstance(n, ast.If) and src(_polarity(n.test)[0]) == "periodic" and (js_defs(n.body) or js_defs(n.orelse))]
-    if len(pifs) == 1:
-        t_, sw = _polarity(pifs[0].test)
-        arm_p, arm_c = (pifs[0].body, pifs[0].orelse) if not sw else (pifs[0].orelse, pifs[0].body)
-        dp, dc = js_defs(arm_p), js_defs(arm_c)
-        if len(dp) == 1 and len(dc) == 1 and dp[0][0] == dc[0][0]:
-            cp, cc = columns(dp[0][2], dp[0][1]), columns(dc[0][2], dc[0][1])
-            if cp is not None and cc is not None:
-                probs = []
-                for what, (first, cnt, mod), want_mod in (("periodic", cp, True), ("clamped", cc, False)):
-                    if not _same(first, span - degree) or not _same(cnt, degree + 1):
-                        probs.append(f"on a {what} space row i gets the {cnt} columns from {first}: the non-vanishing basis functions at a "
-                                     "point of span `span` are the degree+1 functions span-degree .. span")
-                    if want_mod and (mod is None or not _same(mod, nb)):
-                        probs.append("on a periodic space the column indices are not taken modulo the number of basis functions: the functions "
-                                     "that wrap around the period fall outside the matrix" if mod is None else
-                                     f"on a periodic space the column indices are taken modulo {mod} instead of nb")
-                if probs:
-                    badj = "; ".join(probs)
+    def walk(stmts, env, case, fills):
+        for st in stmts:
+            if isinstance(st, ast.FunctionDef) and len(st.args.args) == 1:
+                rets = [r.value for r in ast.walk(st) if isinstance(r, ast.Return)]
+                stmts_ = [x for x in st.body if not (isinstance(x, ast.Expr) and isinstance(x.value, ast.Constant))]
+                straight = all(isinstance(x, ast.Assign) and len(x.targets) == 1 and isinstance(x.targets[0], ast.Name) for x in stmts_[:-1]) and \
+                    bool(stmts_) and isinstance(stmts_[-1], ast.Return)
+                env[st.name] = ("closure", st.args.args[0].arg, rets[0], dict(env), stmts_[:-1]) if len(rets) == 1 and straight else None
+                continue
+            if isinstance(st, ast.Assign) and len(st.targets) == 1 and isinstance(st.targets[0], ast.Name):
+                name = st.targets[0].id
+                if isinstance(st.value, ast.Lambda) and len(st.value.args.args) == 1:
+                    env[name] = ("closure", st.value.args.args[0].arg, st.value.body, dict(env), [])
+                    continue
+                if name in span_names or name in mat_names:
+                    continue
+                try:
+                    env[name] = ev(st.value, env, case)
+                except Unknown:
+                    env[name] = None
+                continue
+            if isinstance(st, ast.AugAssign) and isinstance(st.target, ast.Name) and st.target.id in env:
+                try:
+                    env[st.target.id] = ev(ast.BinOp(left=st.target, op=st.op, right=st.value), env, case)
+                except Unknown:
+                    env[st.target.id] = None
+                continue
+            # stores into the matrix
+            tgt, kind, cols_e, node = None, None, None, st
+            if isinstance(st, ast.Expr) and isinstance(st.value, ast.Call) and src(st.value.func) in ("np.add.at", "numpy.add.at") and len(st.value.args) == 3 \
+                    and isinstance(st.value.args[0], ast.Name) and st.value.args[0].id in mat_names:
+                ix = st.value.args[1]
+                kind, cols_e = "add.at", (ix.elts[1] if isinstance(ix, ast.Tuple) and len(ix.elts) == 2 else None)
+            elif isinstance(st, (ast.Assign, ast.AugAssign)):
+                t = st.targets[0] if isinstance(st, ast.Assign) else st.target
+                if isinstance(t, ast.Subscript) and isinstance(t.value, ast.Name) and t.value.id in mat_names:
+                    kind = "assign" if isinstance(st, ast.Assign) else "iadd"
+                    cols_e = t.slice.elts[1] if isinstance(t.slice, ast.Tuple) and len(t.slice.elts) == 2 else None
+            if kind is not None:
+                try:
+                    cols = ev(cols_e, env, case) if cols_e is not None else None
+                    if not isinstance(cols, _Cols):
+                        cols = None
+                except Unknown:
+                    cols = None
+                fills.append((kind, cols, st))
+                continue
+            if isinstance(st, ast.If):
+                if per_name and src(_polarity(st.test)[0]) == per_name:
+                    take_body = case != _polarity(st.test)[1]
+                    walk(st.body if take_body else st.orelse, env, case, fills)
                 else:
-                    okj = True
-    chk.pat("H1-collocation-columns", pifs[0] if pifs else cm, "columns [span-degree, span] (mod nb when periodic)", okj,
-            "row i holds the degree+1 non-vanishing basis values at columns span-degree..span, wrapped modulo the number of basis "
-            "functions on periodic spaces", badj, file=U.INTERP, func=f"{C1}.collocation_matrix")
-    # ---- filling: a periodic function longer than the period occurs twice in one span; the two values add up
-    fills_add = [c for c in ast.walk(cm) if isinstance(c, ast.Call) and src(c.func) == "np.add.at" and len(c.args) == 3
-                 and src(c.args[0]) == "mat" and src(c.args[2]) == "basis" and src(c.args[1]).replace(" ", "") == "(i,js(span))"]
-    fills_set = [n for n in ast.walk(cm) if isinstance(n, ast.Assign) and isinstance(n.targets[0], ast.Subscript)
-                 and src(n.targets[0].value) == "mat" and "js(" in src(n.targets[0].slice)]
-    bad = None
-    if fills_set:
-        bad = (f"`{src(fills_set[0])}` assigns the basis values at the wrapped columns: when a periodic space has as many cells as the "
-               "degree the same column occurs twice in js(span) and the second value overwrites the first instead of adding to it - "
-               "the matrix is not the collocation matrix, interpolants do not reproduce their data")
-    chk.pat("H1-collocation-accumulate", fills_set[0] if fills_set else cm, "np.add.at(mat, (i, js(span)), basis) on both arms",
-            len(fills_add) >= 1 and not fills_set, "values falling on the same (wrapped) column are added", bad, file=U.INTERP,
-            func=f"{C1}.collocation_matrix")
+                    e1, e2 = dict(env), dict(env)
+                    walk(st.body, e1, case, fills)
+                    walk(st.orelse, e2, case, fills)
+                    for k in set(e1) | set(e2):
+                        a, b = e1.get(k), e2.get(k)
+                        same = (isinstance(a, _Cols) and isinstance(b, _Cols) and repr(a) == repr(b)) or (not isinstance(a, _Cols) and a is b) \
+                            or (isinstance(a, sp.Basic) and isinstance(b, sp.Basic) and a == b)
+                        env[k] = a if same else None
+                continue
+            if isinstance(st, (ast.For, ast.While, ast.With)):
+                walk(st.body, env, case, fills)
+                continue
+
+    results = {}
+    for case in (True, False):
+        fills = []
+        walk(cm.body, {}, case, fills)
+        results[case] = fills
+    okj, badj, okf, badf = True, None, True, None
+    nodej = nodef = cm
+    for case, what in ((True, "periodic"), (False, "clamped")):
+        fills = results[case]
+        if not fills:
+            okj = None if okj else okj
+            okf = None if okf else okf
+            continue
+        for kind, cols, st in fills:
+            if cols is None:
+                okj = None if okj else okj
+                okf = None if okf and kind != "add.at" and case else okf
+                continue
+            probs = []
+            if not _same(cols.first, span - degree) or not _same(cols.count, degree + 1):
+                probs.append(f"on a {what} space row i gets the {cols.count} columns from {cols.first}: the non-vanishing basis functions at a "
+                             "point of span `span` are the degree+1 functions span-degree .. span")
+            if case and (cols.mod is None or not _same(cols.mod, nb)):
+                probs.append("on a periodic space the column indices are not taken modulo the number of basis functions: the functions "
+                             "that wrap around the period fall outside the matrix" if cols.mod is None else
+                             f"on a periodic space the column indices are taken modulo {cols.mod} instead of nb")
+            if not case and cols.mod is not None and not _same(cols.mod, nb) and not probs:
+                okj = None if okj else okj          # indices of a clamped space taken modulo something else: not decided
+            if probs and okj is not False:
+                okj, badj, nodej = False, "; ".join(probs), st
+            if case and cols.mod is not None and kind != "add.at" and okf is not False:
+                okf, nodef = False, st
+                badf = (f"`{src(st)[:80]}` " + ("assigns" if kind == "assign" else "adds with a buffered in-place operation (one write per "
+                                                 "distinct index)") +
+                        " the basis values at the wrapped columns: when a periodic space has as many cells as the "
+                        "degree the same column occurs twice among the degree+1 wrapped indices and only the last value is kept instead of "
+                        "the sum - the matrix is not the collocation matrix, interpolants do not reproduce their data")
+    chk.ob("H1-collocation-columns", nodej, "columns [span-degree, span] (mod nb when periodic)", okj,
+           "row i holds the degree+1 non-vanishing basis values at columns span-degree..span, wrapped modulo the number of basis "
+           "functions on periodic spaces" if okj else (badj or "the column indices of a store into the matrix are not followed (index expression "
+                                                       "outside ranges / slices / shifted and wrapped index arrays / closures over the span)"),
+           file=U.INTERP, func=fq)
+    chk.ob("H1-collocation-accumulate", nodef, "np.add.at(mat, (i, js(span)), basis) on both arms", okf,
+           "values falling on the same (wrapped) column are added (unbuffered accumulation)" if okf else
+           (badf or "a store into the matrix is not followed: cannot decide whether repeated wrapped columns accumulate"),
+           file=U.INTERP, func=fq)
 
 
 LAPACK_ROLES = ["ab", "kl", "ku", "b", "ipiv"]
@@ -189,87 +357,197 @@ def banded_solve_roles(call):
     return wrong, unknown, got
 
 
+def _mentions_dtype(e):
+    return any(isinstance(x, ast.Name) and x.id == "dtype" for x in ast.walk(e))
+
+
+def _complex_test(t):
+    """(is a test for complex data?, kind) kind: 'eq' equality / 'is' identity; None when the test is not understood.
+    polarity: True when the test is true for complex data"""
+    if isinstance(t, ast.Compare) and len(t.ops) == 1 and {src(t.left), src(t.comparators[0])} in (
+            {"dtype", "complex"}, {"np.dtype(dtype)", "complex"}, {"dtype", "np.complex128"}, {"np.dtype(dtype)", "np.dtype(complex)"},
+            {"np.dtype(dtype)", "np.complex128"}):
+        op = t.ops[0]
+        if isinstance(op, (ast.Eq, ast.NotEq)):
+            return isinstance(op, ast.Eq), "eq"
+        if isinstance(op, (ast.Is, ast.IsNot)):
+            return isinstance(op, ast.Is), "is"
+    if isinstance(t, ast.Call) and src(t.func) in ("np.issubdtype", "np.iscomplexobj") and t.args and "dtype" in src(t.args[0]):
+        return True, "eq"
+    return None
+
+
+def _bindings(flat, case_test=None, case=None):
+    """name / `self.attr` -> value expression (or (call, k) for the k-th result of a call), from the straight-line statements in order"""
+    env = {}
+    for st in flat:
+        if not isinstance(st, ast.Assign) or len(st.targets) != 1:
+            continue
+        t, v = st.targets[0], st.value
+        pairs = []
+        if isinstance(t, ast.Tuple):
+            if isinstance(v, ast.Tuple) and len(v.elts) == len(t.elts):
+                pairs = list(zip(t.elts, v.elts))
+            else:
+                pairs = [(el, (v, k)) for k, el in enumerate(t.elts)]
+        else:
+            pairs = [(t, v)]
+        for a, b in pairs:
+            if isinstance(a, ast.Name) or (isinstance(a, ast.Attribute) and src(a.value) == "self"):
+                env[src(a)] = b
+    return env
+
+
+def _routine(e, env, case_test, case, depth=0):
+    """what a callable expression denotes: ('name', routine) for a module-level routine, ('lapack', k-th name, call) for a result of
+    get_lapack_funcs, None otherwise"""
+    if depth > 6:
+        return None
+    if isinstance(e, tuple):
+        call, k = e
+        if isinstance(call, ast.Call) and src(call.func).endswith("get_lapack_funcs") and call.args:
+            names = call.args[0]
+            if isinstance(names, (ast.Tuple, ast.List)) and k < len(names.elts) and isinstance(names.elts[k], ast.Constant):
+                return ("lapack", names.elts[k].value, call)
+        return None
+    if isinstance(e, ast.IfExp) and case_test is not None and src(_polarity(e.test)[0]) == case_test:
+        take_body = case != _polarity(e.test)[1]
+        return _routine(e.body if take_body else e.orelse, env, case_test, case, depth + 1)
+    if isinstance(e, (ast.Name, ast.Attribute)):
+        s_ = src(e)
+        if s_ in env:
+            return _routine(env[s_], env, case_test, case, depth + 1)
+        if isinstance(e, ast.Name):
+            return ("name", e.id)
+    if isinstance(e, ast.Call) and src(e.func).endswith("get_lapack_funcs") and e.args and isinstance(e.args[0], ast.Constant):
+        return ("lapack", e.args[0].value, e)
+    return None
+
+
+def _lapack_flavour(call, flat):
+    """how scipy.linalg.get_lapack_funcs(names, arrays=(), dtype=None) chooses the precision: from the arrays when there are any (the dtype
+    argument is then ignored), otherwise from dtype.  -> ('by-dtype' | 'fixed' | None, text)"""
+    arrays = call.args[1] if len(call.args) > 1 else next((k.value for k in call.keywords if k.arg == "arrays"), None)
+    dt = call.args[2] if len(call.args) > 2 else next((k.value for k in call.keywords if k.arg == "dtype"), None)
+    if arrays is not None and not (isinstance(arrays, (ast.Tuple, ast.List)) and not arrays.elts):
+        if not isinstance(arrays, (ast.Tuple, ast.List)):
+            return None, ""
+        kinds = []
+        for el in arrays.elts:
+            d = None
+            if isinstance(el, ast.Name):
+                for st in flat:
+                    if isinstance(st, ast.Assign) and len(st.targets) == 1 and src(st.targets[0]) == el.id:
+                        d = st.value
+            if isinstance(d, ast.Call) and src(d.func) in ("np.zeros", "np.empty", "np.ones", "np.full"):
+                adt = next((k.value for k in d.keywords if k.arg == "dtype"), None)
+                if adt is None and src(d.func) != "np.full" and len(d.args) > 1:
+                    adt = d.args[1]
+                kinds.append("by-dtype" if adt is not None and _mentions_dtype(adt) else "fixed" if adt is None else None)
+            else:
+                kinds.append(None)
+        if any(k is None for k in kinds):
+            return None, ""
+        if "by-dtype" in kinds:
+            return "by-dtype", ""
+        return "fixed", (f"`{src(call)[:90]}` is given the array(s) `{src(arrays)}`: scipy then deduces the LAPACK precision from these arrays"
+                         + (" and ignores its `dtype` argument" if dt is not None else "") +
+                         "; the band matrix is a real array whatever the interpolator's dtype")
+    if dt is not None and _mentions_dtype(dt):
+        return "by-dtype", ""
+    return "fixed", f"`{src(call)[:90]}` is given neither arrays nor the interpolator's dtype: the double-precision real routines are returned"
+
+
+def routine_pair(imod, body, init):
+    """which factorisation produces the factors and which solve routine is kept, for complex and for real data -> (ok, bad, node)"""
+    flat0 = _flat(body)
+    tests = {}
+    for st in flat0:
+        cands = [st.test] if isinstance(st, ast.If) else []
+        cands += [x.test for x in own_exprs(st) if isinstance(x, ast.IfExp)]
+        for t in cands:
+            if _mentions_dtype(t):
+                tests.setdefault(src(_polarity(t)[0]), _polarity(t)[0])
+    node = init
+    if len(tests) > 1:
+        return None, None, node
+    case_src = next(iter(tests), None)
+    cases = {}
+    for case in ((True, False) if case_src else (None,)):
+        facts = dict(_facts1(False))
+        if case_src:
+            facts[case_src] = case
+        try:
+            cb = Specialiser(imod, C1, facts=facts, keep={"collocation_matrix"}).run("__init__")
+        except Exception:
+            return None, None, node
+        flat = _flat(cb)
+        env = _bindings(flat)
+        fac_st = None
+        for st in flat:
+            if isinstance(st, ast.Assign) and len(st.targets) == 1:
+                t = st.targets[0]
+                names = [src(x) for x in (t.elts if isinstance(t, ast.Tuple) else [t])]
+                if names and names[0] == "self._bmat" and isinstance(st.value, ast.Call):
+                    fac_st = st
+        if fac_st is None or "self._solveFunc" not in env:
+            if not any("_solveFunc" in src(st) for st in flat):
+                return None, None, node
+            return None, None, fac_st or node
+        node = fac_st
+        cases[case] = (_routine(fac_st.value.func, env, case_src, case), _routine(env["self._solveFunc"], env, case_src, case), fac_st, flat)
+    if any(f is None or s_ is None for f, s_, _st, _fl in cases.values()):
+        return None, None, node
+    # routines obtained from scipy's table
+    laps = [(f, s_, fl) for f, s_, _st, fl in cases.values() if f[0] == "lapack" or s_[0] == "lapack"]
+    if laps:
+        for f, s_, fl in laps:
+            if f[0] != "lapack" or s_[0] != "lapack" or f[2] is not s_[2]:
+                return None, None, node
+            if not (str(f[1]).endswith("gbtrf") and str(s_[1]).endswith("gbtrs")):
+                return None, None, node
+            flav, text = _lapack_flavour(f[2], fl)
+            if flav is None:
+                return None, None, node
+            if flav == "fixed":
+                return False, (text + ": the real pair is selected for dtype=complex too, and the real solve drops the imaginary part of "
+                               "complex data"), node
+        return True, None, node
+    names = {case: (f[1], s_[1]) for case, (f, s_, _st, _fl) in cases.items()}
+    allowed = {(a, b) for a in ("zgbtrf", "dgbtrf") for b in ("zgbtrs", "dgbtrs")}
+    if not set(names.values()) <= allowed:
+        return None, None, node
+    if case_src is None:
+        pair = names[None]
+        if pair == ("dgbtrf", "dgbtrs"):
+            return False, ("the constructor always takes (dgbtrf, dgbtrs), whatever the interpolator's dtype: the real solve drops the "
+                           "imaginary part of complex data"), node
+        if pair[0][0] != pair[1][0]:
+            return False, f"the constructor takes {pair}: factorisation and solve are not of one precision", node
+        return None, None, node
+    ct = _complex_test(tests[case_src])
+    if ct is None:
+        return None, None, node
+    pol, kind = ct
+    arms = {True: names[pol], False: names[not pol]}          # complex data / real data
+    fargs_ok = all(len(st.value.args) >= 3 and [src(a) for a in st.value.args[1:3]] == ["self._l", "self._u"] for _f, _s, st, _fl in cases.values())
+    if kind == "is":
+        return False, (f"the complex pair is selected by `{case_src}`: an identity test is False for np.dtype(complex)/array.dtype, which then "
+                       "silently takes the real LAPACK pair and drops the imaginary part"), node
+    want = {True: ("zgbtrf", "zgbtrs"), False: ("dgbtrf", "dgbtrs")}
+    if arms != want:
+        return False, (f"for complex data (`{case_src}`) the constructor takes {arms[True]}, otherwise {arms[False]}: factorisation and solve "
+                       "are not the (z, z) / (d, d) pairs of one precision, so complex factors are solved by the real routine or the reverse"), node
+    if not fargs_ok:
+        return None, None, node
+    return True, None, node
+
+
 def factor_solve_pair(chk, imod):
     init_q = f"{C1}.__init__"
     init = chk.func(U.INTERP, init_q)
     body = Specialiser(imod, C1, facts=_facts1(False), keep={"collocation_matrix"}).run("__init__")
-    sets, facts_ = [], []
-    for st, guards in walk_guarded(body):
-        if isinstance(st, ast.Assign):
-            tg = st.targets[0]
-            names = [src(x) for x in (tg.elts if isinstance(tg, ast.Tuple) else [tg])]
-            if "self._solveFunc" in names:
-                sets.append((st, guards, names))
-            if "self._bmat" in names:
-                facts_.append((st, guards, names))
-    ok, bad, node = False, None, init
-
-    def dtype_guard(guards):
-        g = [(t, pol) for t, pol, _n in guards if "dtype" in {x.id for x in ast.walk(t) if isinstance(x, ast.Name)}]
-        return g[-1] if g else None
-
-    def complex_test(t):
-        """True: equality with complex; False: identity; None: unknown"""
-        if isinstance(t, ast.Compare) and len(t.ops) == 1 and {src(t.left), src(t.comparators[0])} in ({"dtype", "complex"}, {"np.dtype(dtype)", "complex"},
-                                                                                                        {"dtype", "np.complex128"}):
-            if isinstance(t.ops[0], ast.Eq):
-                return True
-            if isinstance(t.ops[0], (ast.Is,)):
-                return False
-        if isinstance(t, ast.Call) and src(t.func) in ("np.issubdtype", "np.iscomplexobj") and t.args and "dtype" in src(t.args[0]):
-            return True
-        return None
-    lap = [s_ for s_ in sets if isinstance(s_[0].value, ast.Call) and src(s_[0].value.func).endswith("get_lapack_funcs")]
-    if lap:
-        c = lap[0][0].value
-        node = lap[0][0]
-        deps = set()
-        for a in list(c.args[1:]) + [k.value for k in c.keywords]:
-            for x in ast.walk(a):
-                if isinstance(x, ast.Name):
-                    deps.add(x.id)
-                    for st2 in _flat(body):
-                        if isinstance(st2, ast.Assign) and isinstance(st2.targets[0], ast.Name) and st2.targets[0].id == x.id:
-                            deps |= {y.id for y in ast.walk(st2.value) if isinstance(y, ast.Name)}
-        if "dtype" not in deps:
-            bad = (f"`{src(c)[:80]}` deduces the LAPACK flavour from its array arguments, none of which has the interpolator's dtype (the band "
-                   "matrix is real): the real pair is selected for dtype=complex and the solve drops the imaginary part of complex data")
-    elif len(sets) == 2 and len(facts_) == 2:
-        info = {}
-        for kind, lst in (("solve", sets), ("factor", facts_)):
-            for st, guards, names in lst:
-                g = dtype_guard(guards)
-                v = st.value
-                rn = src(v.func) if isinstance(v, ast.Call) else src(v)
-                if g is None:
-                    info = None
-                    break
-                info.setdefault((src(g[0]), g[1]), {})[kind] = (rn, st, g[0])
-            if info is None:
-                break
-        if info and len(info) == 2 and all(set(v) == {"solve", "factor"} for v in info.values()):
-            tests = {k[0] for k in info}
-            if len(tests) == 1:
-                t_node = next(iter(info.values()))["solve"][2]
-                node = sets[0][0]
-                ct = complex_test(t_node)
-                arms = {pol: (v["factor"][0], v["solve"][0]) for (t, pol), v in info.items()}
-                want = {True: ("zgbtrf", "zgbtrs"), False: ("dgbtrf", "dgbtrs")}
-                fargs = all([src(a) for a in v["factor"][1].value.args[:3]] in (["bmat", "self._l", "self._u"],) or
-                            (isinstance(v["factor"][1].value, ast.Call) and len(v["factor"][1].value.args) >= 3 and
-                             [src(a) for a in v["factor"][1].value.args[1:3]] == ["self._l", "self._u"]) for v in info.values())
-                if ct is False:
-                    bad = (f"the complex pair is selected by `{src(t_node)}`: an identity test is False for np.dtype(complex)/array.dtype, which then "
-                           "silently takes the real LAPACK pair and drops the imaginary part")
-                elif arms != want and set(arms.values()) <= {(a, b) for a in ("zgbtrf", "dgbtrf") for b in ("zgbtrs", "dgbtrs")} and ct:
-                    bad = (f"on `{src(t_node)}` the constructor takes {arms[True]}, otherwise {arms[False]}: factorisation and solve are not the "
-                           "(z, z) / (d, d) pairs of one precision, so complex factors are solved by the real routine or the reverse")
-                elif ct and arms == want and fargs:
-                    ok = True
-    elif not sets:
-        # no assignment at all on the clamped path
-        if not any("_solveFunc" in src(st) for st in _flat(body)):
-            bad = None
+    ok, bad, node = routine_pair(imod, body, init)
     chk.pat("H2-factor-solve-pair", node, "dtype == complex -> (zgbtrf, zgbtrs) else (dgbtrf, dgbtrs)", ok,
             "complex data selects the complex factorisation together with the complex solve, real data the real pair; the test is an "
             "equality, so every spelling of the complex dtype (complex, np.dtype(complex)) takes the complex pair", bad,
@@ -316,89 +594,106 @@ def factor_solve_pair(chk, imod):
 
 
 def band_storage(chk, imod, body, init, init_q):
-    """LAPACK general band storage: ab[kl + ku + i - j, j] = A[i, j], 2 kl + ku + 1 rows"""
+    """LAPACK general band storage: ab[kl + ku + i - j, j] = A[i, j], 2 kl + ku + 1 rows.  The band array is the first argument of the
+    factorisation (the call whose first result becomes `self._bmat`); its fill is read with i / j = row / column of a non-zero entry, either
+    from a loop over `zip(*M.nonzero())` or from index arrays `rows, cols = np.nonzero(M)` used in one vectorised store; the band widths
+    are extrema of the diagonal offsets j - i (or i - j) of these entries."""
     l, u, i, j = sp.symbols("l u i j", integer=True)
-    tab = {"self._l": l, "self._u": u}
     flat = _flat(body)
-    # names of the row / column indices of the non-zero entries
-    idx, why = None, None
-    for st in flat:
-        if isinstance(st, ast.For) and isinstance(st.target, ast.Tuple) and len(st.target.elts) == 2 and "nonzero" in src(st.iter) and \
-                all(isinstance(x, ast.Name) for x in st.target.elts):
-            idx = (st.target.elts[0].id, st.target.elts[1].id, st.body)
-        if isinstance(st, ast.Assign) and isinstance(st.targets[0], ast.Tuple) and len(st.targets[0].elts) == 2 and "nonzero" in src(st.value) and \
-                all(isinstance(x, ast.Name) for x in st.targets[0].elts):
-            idx = (st.targets[0].elts[0].id, st.targets[0].elts[1].id, flat)
     ok, bad, node = False, None, init
-    # bandwidths
-    defs = {}
+    # the band array
+    band = None
     for st in flat:
-        if isinstance(st, ast.Assign) and src(st.targets[0]) in ("self._l", "self._u"):
-            defs[src(st.targets[0])] = st
-    diag_names = {}      # local -> +1 (j - i) / -1 (i - j)
+        if isinstance(st, ast.Assign) and len(st.targets) == 1 and isinstance(st.value, ast.Call) and st.value.args:
+            t = st.targets[0]
+            names = [src(x) for x in (t.elts if isinstance(t, ast.Tuple) else [t])]
+            if names and names[0] == "self._bmat" and isinstance(st.value.args[0], ast.Name):
+                band = st.value.args[0].id
+    alloc = None
     for st in flat:
-        if isinstance(st, ast.Assign) and isinstance(st.targets[0], ast.Name):
-            if isinstance(st.value, ast.Call) and src(st.value.func) == "dia_matrix":
-                diag_names[st.targets[0].id + ".offsets"] = 1
-            if idx and isinstance(st.value, ast.BinOp) and isinstance(st.value.op, ast.Sub):
-                a, b = src(st.value.left), src(st.value.right)
-                if (a, b) == (idx[1], idx[0]):
-                    diag_names[st.targets[0].id] = 1
-                elif (a, b) == (idx[0], idx[1]):
-                    diag_names[st.targets[0].id] = -1
+        if isinstance(st, ast.Assign) and len(st.targets) == 1 and src(st.targets[0]) == band and isinstance(st.value, ast.Call) \
+                and src(st.value.func) in ("np.zeros", "np.empty") and st.value.args and isinstance(st.value.args[0], ast.Tuple) \
+                and len(st.value.args[0].elts) == 2:
+            alloc = st
+    # row / column index names of the non-zero entries, and the matrix they index
+    idx = None
+    for st in flat:
+        it = None
+        if isinstance(st, ast.For) and isinstance(st.target, ast.Tuple) and len(st.target.elts) == 2 and \
+                all(isinstance(x, ast.Name) for x in st.target.elts) and "nonzero" in src(st.iter):
+            idx = (st.target.elts[0].id, st.target.elts[1].id, [x for x in ast.walk(st) if isinstance(x, ast.stmt) and x is not st])
+        if isinstance(st, ast.Assign) and len(st.targets) == 1 and isinstance(st.targets[0], ast.Tuple) and len(st.targets[0].elts) == 2 and \
+                all(isinstance(x, ast.Name) for x in st.targets[0].elts) and "nonzero" in src(st.value):
+            idx = (st.targets[0].elts[0].id, st.targets[0].elts[1].id, flat)
+    if band is None or alloc is None or idx is None:
+        chk.pat("H2-band-storage", node, "LAPACK band storage", False, "", None, file=U.INTERP, func=init_q)
+        return
+    I, J, scope = idx
+    tab = {"self._l": l, "self._u": u, I: i, J: j}
+    # locals that are integer combinations of the indices (below = rows - cols, ...)
+    for st in flat:
+        if isinstance(st, ast.Assign) and len(st.targets) == 1 and isinstance(st.targets[0], ast.Name) and st.targets[0].id not in (I, J):
+            v = _int_attr(st.value, tab)
+            if v is not None:
+                tab[st.targets[0].id] = v
+    # diagonal offsets of a sparse DIA matrix: offset k holds the entries with j - i = k
+    for st in flat:
+        if isinstance(st, ast.Assign) and isinstance(st.targets[0], ast.Name) and isinstance(st.value, ast.Call) and \
+                src(st.value.func) in ("dia_matrix", "scipy.sparse.dia_matrix"):
+            tab[st.targets[0].id + ".offsets"] = j - i
 
     def bandwidth(e):
-        """'lower' / 'upper' / None for an expression over the diagonal offsets j - i"""
-        inner, absd = e, False
-        if isinstance(e, ast.Call) and src(e.func) in ("abs", "np.abs") and len(e.args) == 1:
-            inner, absd = e.args[0], True
-        neg = False
+        """'lower' / 'upper' for max(i - j) resp. max(j - i) written as an extremum of an expression over the entries; None otherwise"""
+        inner, absd, neg = e, False, False
+        if isinstance(inner, ast.Call) and src(inner.func) in ("abs", "np.abs") and len(inner.args) == 1:
+            inner, absd = inner.args[0], True
         if isinstance(inner, ast.UnaryOp) and isinstance(inner.op, ast.USub):
             inner, neg = inner.operand, True
+        ext, arr = None, None
         if isinstance(inner, ast.Call) and isinstance(inner.func, ast.Attribute) and inner.func.attr in ("min", "max") and not inner.args:
-            s_ = src(inner.func.value)
-            if s_ in diag_names:
-                sign = diag_names[s_]
-                ext = inner.func.attr
-                # offsets j - i: max = upper bandwidth, -min = lower bandwidth
-                if sign == 1:
-                    if ext == "max" and not neg:
-                        return "upper"
-                    if ext == "min" and (neg or absd):
-                        return "lower"
-                else:
-                    if ext == "max" and not neg:
-                        return "lower"
-                    if ext == "min" and (neg or absd):
-                        return "upper"
+            ext, arr = inner.func.attr, inner.func.value
+        elif isinstance(inner, ast.Call) and src(inner.func) in ("np.max", "np.min", "max", "min", "np.amax", "np.amin") and len(inner.args) == 1:
+            ext, arr = src(inner.func).split(".")[-1].replace("amax", "max").replace("amin", "min"), inner.args[0]
+        if ext is None:
+            return None
+        d = _int_attr(arr, tab)
+        if d is None:
+            return None
+        if ext == "min":
+            if not (neg or absd):
+                return None
+            d, ext = -d, "max"          # -min(d) = max(-d); |min(d)| = -min(d) because the main diagonal (offset 0) is never empty
+        elif neg or absd:
+            if neg:
+                return None
+        if _same(d, i - j):
+            return "lower"
+        if _same(d, j - i):
+            return "upper"
         return None
+    defs = {}
+    for st in flat:
+        if isinstance(st, ast.Assign) and len(st.targets) == 1 and src(st.targets[0]) in ("self._l", "self._u"):
+            defs[src(st.targets[0])] = st
     bw = {k: bandwidth(st.value) for k, st in defs.items()}
-    allocs = [st for st in flat if isinstance(st, ast.Assign) and isinstance(st.targets[0], ast.Name) and isinstance(st.value, ast.Call)
-              and src(st.value.func) in ("np.zeros", "np.empty") and st.value.args and isinstance(st.value.args[0], ast.Tuple)
-              and len(st.value.args[0].elts) == 2 and any(src(st.targets[0]) == src(a) for f in flat if isinstance(f, ast.Assign)
-                                                          and isinstance(f.value, ast.Call) and src(f.value.func)[1:] == "gbtrf" for a in f.value.args[:1])]
-    fills = []
-    if idx:
-        for st in (idx[2] if idx[2] is not flat else flat):
-            for x in ([st] if idx[2] is flat else ast.walk(st)):
-                if isinstance(x, ast.Assign) and isinstance(x.targets[0], ast.Subscript) and isinstance(x.targets[0].slice, ast.Tuple) and \
-                        len(x.targets[0].slice.elts) == 2 and allocs and src(x.targets[0].value) == src(allocs[0].targets[0]):
-                    fills.append(x)
-    if len(defs) == 2 and allocs and len(fills) == 1 and idx:
+    fills = [x for x in scope if isinstance(x, ast.Assign) and len(x.targets) == 1 and isinstance(x.targets[0], ast.Subscript)
+             and src(x.targets[0].value) == band and isinstance(x.targets[0].slice, ast.Tuple) and len(x.targets[0].slice.elts) == 2]
+    if len(defs) == 2 and len(fills) == 1:
         node = fills[0]
-        rows = _int_attr(allocs[0].value.args[0].elts[0], tab)
-        r = _int_attr(fills[0].targets[0].slice.elts[0], {**tab, idx[0]: i, idx[1]: j})
-        c = src(fills[0].targets[0].slice.elts[1])
+        rows = _int_attr(alloc.value.args[0].elts[0], tab)
+        r = _int_attr(fills[0].targets[0].slice.elts[0], tab)
+        c = _int_attr(fills[0].targets[0].slice.elts[1], tab)
         v = fills[0].value
-        v_ok = isinstance(v, ast.Subscript) and isinstance(v.slice, ast.Tuple) and [src(x) for x in v.slice.elts] == [idx[0], idx[1]]
+        v_ok = isinstance(v, ast.Subscript) and isinstance(v.slice, ast.Tuple) and len(v.slice.elts) == 2 and \
+            [_int_attr(x, tab) for x in v.slice.elts] == [i, j]
         if bw.get("self._l") == "upper" and bw.get("self._u") == "lower":
             bad = ("the lower bandwidth is taken from the super-diagonals and the upper one from the sub-diagonals: the band array and the "
                    "LAPACK calls describe the transposed pattern")
-        elif rows is not None and r is not None and bw.get("self._l") == "lower" and bw.get("self._u") == "upper" and v_ok:
+        elif rows is not None and r is not None and c is not None and bw.get("self._l") == "lower" and bw.get("self._u") == "upper" and v_ok:
             if not _same(rows, 2 * l + u + 1):
                 bad = f"the band array has {rows} rows: xgbtrf needs 2 kl + ku + 1 (kl extra rows for the fill-in of the pivoting)"
-            elif not _same(r, u + l + i - j) or c != idx[1]:
-                bad = (f"entry (i, j) is stored at row {r}, column `{c}`: LAPACK band storage holds it at row kl + ku + i - j of column j, so the "
+            elif not _same(r, u + l + i - j) or not _same(c, j):
+                bad = (f"entry (i, j) is stored at row {r}, column {c}: LAPACK band storage holds it at row kl + ku + i - j of column j, so the "
                        "factorised matrix is not the collocation matrix")
             else:
                 ok = True
